@@ -6,6 +6,14 @@ CLAIMED = {
          'first-terminal-event-decides in _execute_phase/_execute_checkpoint: every obligation generated from the current sources is discharged',
          'callee contracts of PhaseExecutor.execute_phase/skip_phase/evaluate_checkpoint and PlugManager are assumed here (verified, where claimed, under C05/C02/C08); '
          'TestExecutor._thread_proc (executor crash => not PASS) and Test.execute return value are not yet under contract'),
+ 'C06': ('recorded value = transform(last assigned value) (MeasuredValue.set), outcome PASS exactly when every attached validator accepts the recorded '
+         'value else FAIL, marginal iff PASS and some validator deems the value marginal, a raising validator / transform (first one in evaluation order) '
+         'fails the measurement and propagates, assignment to an undeclared name or to a dimensioned measurement without coordinates is rejected and changes '
+         'nothing, other measurements untouched (Collection.__setitem__), with_validator / validate_on only append, wrong number of coordinates rejected, '
+         'dimensioned measurements become PARTIALLY_SET and are validated at phase end, nothing leaves a phase PARTIALLY_SET (PhaseState._finalize_measurements)',
+         'validators / transform / is_marginal are deterministic opaque functions that return or raise; the positive path of DimensionedMeasuredValue.__setitem__ '
+         '(tuple-keyed insertion order) and the activation of conditional validators in PhaseState.from_descriptor (deepcopy per declared measurement) are not under contract; '
+         'Measurement.validate for dimensioned values is used by contract only'),
  'C07': ('function-against-spec contracts for InRange, AllInRangeValidator, WithinPercent, Equals, the equals/all_equals/matches_regex factories, '
          'RegexMatcher, with_args/__eq__ and DimensionPivot, over the full value union (None|bool|int|float|str)',
          'float is modelled as real|NaN|+-inf with IEEE facts for rounded arithmetic; re semantics trusted (pattern text and method identity are proved); '
